@@ -383,11 +383,10 @@ class Ctx:
     # visible to the instance-wise cardinality lemmas
     if z3.is_not(g) and z3.is_quantifier(g.arg(0)) and g.arg(0).is_exists():
       q = g.arg(0)           # not exists x. P  ==  forall x. not P
-      g = z3.ForAll([z3.Const(q.var_name(i), q.var_sort(i))
-                     for i in range(q.num_vars())],
-                    z3.Not(z3.substitute_vars(q.body(), *reversed(
-                        [z3.Const(q.var_name(i), q.var_sort(i))
-                         for i in range(q.num_vars())]))))
+      fresh = [z3.Const(self.sym('nx!' + q.var_name(i)), q.var_sort(i))
+               for i in range(q.num_vars())]
+      g = z3.ForAll(fresh, z3.Not(z3.substitute_vars(q.body(),
+                                                     *reversed(fresh))))
     while z3.is_quantifier(g) and g.is_forall():
       consts = [z3.Const(self.sym('sk!' + g.var_name(i)), g.var_sort(i))
                 for i in range(g.num_vars())]
